@@ -785,7 +785,10 @@ def signature(ops, obs, snaps, i) -> str:
             return SIG_STALE
     # the catalog API asked right after the step contradicts what the connection itself holds
     wrong = []
+    viewed = {ops[j][1] for j in range(i + 1) if ops[j][0] == "tempview"}     # the catalog rightly reports temporary views
     for n, (ex, cols, got) in sorted(after.get("cat", {}).items()):
+        if n in viewed:
+            continue
         real = after["tabs"].get(n)
         if ex != (real is not None):
             wrong.append("tableExists")
@@ -793,7 +796,7 @@ def signature(ops, obs, snaps, i) -> str:
             wrong.append("getTable")
         if [list(c) for c in cols] != ([list(c) for c in real[0]] if real else []):
             wrong.append("listColumns")
-    if sorted(after.get("listed", sorted(after["tabs"]))) != sorted(after["tabs"]):
+    if sorted(after.get("listed", sorted(after["tabs"]))) != sorted(list(after["tabs"]) + sorted(viewed)):
         wrong.append("listTables")
     if wrong:
         return f"C14/catalog-contradicts-engine:{'+'.join(sorted(set(wrong)))}-after-{k}"
